@@ -358,6 +358,7 @@ def lt(a, b): return _cmp(a, b, lambda x, y: x < y, lambda x, y: x < y)
 def le(a, b): return _cmp(a, b, lambda x, y: x <= y, lambda x, y: x <= y)
 def gt(a, b): return _cmp(a, b, lambda x, y: x > y, lambda x, y: x > y)
 def ge(a, b): return _cmp(a, b, lambda x, y: x >= y, lambda x, y: x >= y)
+def eq(a, b): return _cmp(a, b, lambda x, y: x == y, lambda x, y: x == y)
 
 
 def num_eq(a, b):
